@@ -14,11 +14,14 @@ package main
 // `_args` the real resolver delivered to every stage job and the recorded
 // top-level outs of the same Tier-A run.
 //
-// The theorem `resolver_refines_den_plain_checked` is replayed on every program
+// The refinement theorems with node-wise store (`resolver_refines_den_mapstatic_checked` for map calls
+// of stages, `resolver_refines_den_mappedpipes_checked` for mapped pipelines / nesting; both cover
+// plain programs) are replayed on every program
 // whose decidable hypotheses hold (`frag=1`): twoPhase must equal den.
 
 import (
 	"fmt"
+	"os"
 	"strconv"
 	"strings"
 
@@ -80,7 +83,31 @@ func c01RExp(sb *strings.Builder, e syntax.Exp) error {
 		}
 		sb.WriteString(")")
 	case *syntax.RefExp:
-		sb.WriteString("(ref " + t.Id + c01Path(t.OutputId) + ")")
+		sb.WriteString("(ref " + t.Id)
+		// known fork indices, sorted by call id like the driver
+		var fks [][2]string
+		for call, ix := range t.Forks {
+			if call == nil || ix == nil {
+				continue
+			}
+			if k := ix.IndexSource(); k != nil {
+				continue // not known until run time
+			}
+			if ix.Mode() == syntax.ModeMapCall {
+				fks = append(fks, [2]string{call.Id, "(k " + c01hx(ix.MapKey()) + ")"})
+			} else {
+				fks = append(fks, [2]string{call.Id, fmt.Sprintf("(i %d)", ix.ArrayIndex())})
+			}
+		}
+		for i := 1; i < len(fks); i++ {
+			for j := i; j > 0 && fks[j][0] < fks[j-1][0]; j-- {
+				fks[j], fks[j-1] = fks[j-1], fks[j]
+			}
+		}
+		for _, e := range fks {
+			sb.WriteString(" (fk " + e[0] + " " + e[1] + ")")
+		}
+		sb.WriteString(c01Path(t.OutputId) + ")")
 	case *syntax.SplitExp:
 		id := "?"
 		if t.Call != nil {
@@ -102,15 +129,19 @@ func c01RExp(sb *strings.Builder, e syntax.Exp) error {
 		}
 		sb.WriteString(")")
 	case *syntax.DisabledExp:
-		sb.WriteString("(dis ")
-		if err := c01RExp(sb, t.Disabled); err != nil {
+		var ds, vs strings.Builder
+		if err := c01RExp(&ds, t.Disabled); err != nil {
 			return err
 		}
-		sb.WriteByte(' ')
-		if err := c01RExp(sb, t.Value); err != nil {
+		if err := c01RExp(&vs, t.Value); err != nil {
 			return err
 		}
-		sb.WriteString(")")
+		// two wrappers on the same control are one (canonical form, like the driver)
+		if strings.HasPrefix(vs.String(), "(dis "+ds.String()+" ") {
+			sb.WriteString(vs.String())
+		} else {
+			sb.WriteString("(dis " + ds.String() + " " + vs.String() + ")")
+		}
 	default:
 		return &c01Unsupported{fmt.Sprintf("resolved expression %T", e)}
 	}
@@ -129,7 +160,29 @@ func c01CGNodes(sb *strings.Builder, node syntax.CallGraphNode) error {
 		}
 		return nil
 	}
-	sb.WriteString(" (node " + node.GetFqid())
+	// a node that is always disabled (constant true control) never runs: left out on both sides
+	if ds := node.Disabled(); len(ds) > 0 {
+		if b, ok := ds[0].(*syntax.BoolExp); ok && b.Value {
+			return nil
+		}
+	}
+	sb.WriteString(" (node " + node.GetFqid() + " (forks")
+	for _, fr := range node.ForkRoots() {
+		sb.WriteString(" " + fr.Call().Id)
+	}
+	sb.WriteString(") (disabled")
+	seenDis := map[string]bool{}
+	for _, d := range node.Disabled() {
+		var db strings.Builder
+		if err := c01RExp(&db, d); err != nil {
+			return err
+		}
+		if !seenDis[db.String()] {
+			seenDis[db.String()] = true
+			sb.WriteString(" " + db.String())
+		}
+	}
+	sb.WriteString(")")
 	ins := node.ResolvedInputs()
 	for _, p := range node.Callable().GetInParams().List {
 		rb := ins[p.Id]
@@ -256,7 +309,7 @@ func c01StaticCheck(c *Ctx, cases []c01StaticCase, stream string, reported map[s
 	for i, cs := range cases {
 		rep := c01ParseStatic(replies[i])
 		if rep.skip {
-			r.hist("static:" + stream + ":not-plain")
+			r.hist("static:" + stream + ":" + strings.TrimSpace(replies[i]))
 			continue
 		}
 		nodes := strings.Count(rep.static, " (node ")
@@ -268,7 +321,7 @@ func c01StaticCheck(c *Ctx, cases []c01StaticCase, stream string, reported map[s
 				Broken: "C01.static"})
 			continue
 		}
-		r.hist("static:" + stream + ":plain")
+		r.hist("static:" + stream + ":covered by the static model (plain or statically sized map calls of stages)")
 		if rep.frag {
 			r.hist("static:" + stream + ":inside-proved-fragment")
 		} else {
@@ -317,7 +370,7 @@ func c01StaticCheck(c *Ctx, cases []c01StaticCase, stream string, reported map[s
 				r.violate(Violation{Kind: "correspondence", Key: "C01:two-phase-vs-den",
 					What:   "twoPhase differs from den on a program that passes wellTypedB/acyclicB (the driver's encoding or the theorem's replay is broken)",
 					Input:  map[string]interface{}{"program": cs.src, "name": cs.name},
-					Broken: "resolver_refines_den_plain_checked"})
+					Broken: "resolver_refines_den_mapstatic_checked / resolver_refines_den_mappedpipes_checked"})
 			}
 		}
 		if rep.den == "eq" {
@@ -339,4 +392,22 @@ func c01StaticCheck(c *Ctx, cases []c01StaticCase, stream string, reported map[s
 			}
 		}
 	}
+}
+
+// C01CG: debugging entry: print the real call graph rendering and the model's static phase
+// for one program (env C01_MRO).
+func init() {
+	register("C01CG", func(c *Ctx) {
+		b, err := os.ReadFile(os.Getenv("C01_MRO"))
+		if err != nil {
+			fatal("%v", err)
+		}
+		prog, cg, err := c01CompileStatic(string(b))
+		fmt.Fprintln(os.Stderr, "err:", err)
+		fmt.Fprintln(os.Stderr, "compiler:", strings.ReplaceAll(cg, " (node ", "\n  (node "))
+		if prog != "" && c.Drv != nil {
+			rep := c.Drv.Ask("C01.static", prog, "-")
+			fmt.Fprintln(os.Stderr, "model:   ", strings.ReplaceAll(rep, " (node ", "\n  (node "))
+		}
+	})
 }
